@@ -2,7 +2,7 @@
 from world import amounts, specials
 
 ID = "C04"
-LEAN_MODULES = ["QtyModel.Props.C04", "QtyModel.Props.Backends", "QtyModel.Props.OracleSound"]
+LEAN_MODULES = ["QtyModel.Props.C04", "QtyModel.Props.Backends", "QtyModel.Props.OracleSound", "QtyModel.Props.TieTemplates"]
 HARNESS_GROUPS = ('g_derived',)
 RULE = ("every operator instance the model predicts from the declarations (catalogue 34, astronomical, synthetic) x "
         "every unit pair of the operand types x amount pairs x the four owned/borrowed forms; oracle = exact-rational "
